@@ -283,6 +283,13 @@ def flush(ctx, out, pending, prop, oracle):
     for k, (case, o) in enumerate(pending):
         fn, inp, xs = model_input(case, o)
         o.model_xs = xs
+        if len(inp) > 40000:
+            # a trace far longer than any the unchanged program produces for these inputs (tens of thousands of data calls):
+            # not fed to the model — the direct oracle still judges the run, and the excess itself is a disagreement
+            out.count("traces_too_long_for_the_model")
+            out.corr("R1-trace-length: %d numbers describe this run's data calls; no modelled run of these inputs has more than a few thousand"
+                     % len(inp), case.describe(), "a trace of modelled length", len(inp))
+            continue
         if getattr(case, "binary", "xcp") == "xcp" and not case.prealloc:
             # (a preallocated, unsynced file's extent list may change under our feet — writeback — between the harness's
             # look and xcp's: such cases are judged by the direct oracle only)
